@@ -1,6 +1,8 @@
 CONSTANTS
   MaxBlocks = 3
   MaxInv = 1
+  FileLimit = 3
+  PosBeforeRollover = FALSE
   MaxRestarts = 2
   TxU <- TxUDef
   Lists <- ListsA
